@@ -538,6 +538,24 @@ C06_denotes(step) ==
   Cl("C06_denotes", IsRT(step, "provn") /\ step.exc = "none" /\ WfProvN(step.ast),
      ReadBagEq(SpecReadProvN(step.ast), step.src))
 C06Clauses(step) == IF IsRT(step, "provn") THEN {C06_parses(step), C06_grammar(step), C06_denotes(step)} ELSE {}
+(* C07 — PROV-O (TriG) round trip preserves the unified content of expressible documents; *)
+(* set based per container because RDF is a set of triples                                 *)
+USet(recs) == SeqToSet(UnifiedSpec(recs))
+C07_noexc(step) == Cl("C07_noexc", IsRT(step, "rdf"), step.exc = "none")
+C07_rt(step) ==
+  Cl("C07_rt", IsRT(step, "rdf") /\ step.exc = "none",
+     /\ SeqToSet(ContentSeq(step.back.recs)) = USet(step.src.recs)
+     /\ {step.back.bundles[i].id : i \in 1..Len(step.back.bundles)}
+          = {step.src.bundles[i].id : i \in 1..Len(step.src.bundles)}
+     /\ \A i \in 1..Len(step.src.bundles) : \A j \in 1..Len(step.back.bundles) :
+          step.src.bundles[i].id = step.back.bundles[j].id =>
+             SeqToSet(ContentSeq(step.back.bundles[j].recs)) = USet(step.src.bundles[i].recs))
+(* every relation comes back exactly once: never zero (C07_rt) and never twice *)
+C07_one(step) ==
+  LET once(recs) == \A i \in 1..Len(recs) : recs[i].k \in Elements \/ CountIn(ContentSeq(recs), Content(recs[i])) = 1
+  IN Cl("C07_one", IsRT(step, "rdf") /\ step.exc = "none",
+        once(step.back.recs) /\ \A j \in 1..Len(step.back.bundles) : once(step.back.bundles[j].recs))
+C07Clauses(step) == IF IsRT(step, "rdf") THEN {C07_noexc(step), C07_rt(step), C07_one(step)} ELSE {}
 C01Clauses(step) == IF IsRT(step, "json") THEN {C01_noexc(step), C01_rt(step)} ELSE {}
 C10Clauses(step) == IF IsRT(step, "json") THEN {C10_wf_json(step), C10_read_json(step)}
                     ELSE IF IsRT(step, "xml") THEN {C10_wf_xml(step), C10_read_xml(step)} ELSE {}
